@@ -137,10 +137,20 @@ fn gen_ins(g: &mut Xo, sw: &Swarm, depth: usize) -> Ins {
             _ => Ins::Swap(Ty::Exec),
         },
         13 => {
+            // (the pushed program is generated one level down; at the bottom it is a plain
+            // instruction, never another exec push — otherwise a swarm configuration that enables
+            // only this family would recurse without bound)
             let p = if depth > 0 && g.coin() {
                 Prog::B(gen_items(g, sw, depth - 1, 3))
+            } else if depth > 0 {
+                Prog::I(gen_ins(g, sw, depth - 1))
             } else {
-                Prog::I(gen_ins(g, sw, 0))
+                Prog::I(match g.below(4) {
+                    0 => Ins::Exec(ExecOp::Noop),
+                    1 => Ins::PushInt(gen_i64(g)),
+                    2 => Ins::Int(*g.pick(&ALL_INT_OPS)),
+                    _ => Ins::Dup(Ty::Exec),
+                })
             };
             Ins::PushExec(Box::new(p))
         }
